@@ -43,6 +43,8 @@ def cases(tier, seed):
                         crops=(None if i % 3 else [c for c in gen.usable_crops() if c in common.gdd_crops()]))
         sp["pad_before"] = 3
         sp["pad_after"] = 3
+        if i % 8 == 5 and common.crop_catalogue()[sp["crop"]["name"]]["CalendarType"] == 1:
+            sp["crop"]["kw"]["SwitchGDD"] = 1      # the conversion works on a copy of the weather table
         if i % 2:
             gen.et0_spike(rng, sp)     # a value far outside the spread of its column
         out.append({"spec": sp, "seed": int(rng.integers(0, 2 ** 31 - 1)),
@@ -50,7 +52,7 @@ def cases(tier, seed):
     return out
 
 
-def add_columns(df, rng, where):
+def add_columns(df, rng, where, force=()):
     df = df.copy()
     n = len(df)
     extras = {
@@ -65,6 +67,10 @@ def add_columns(df, rng, where):
         "MaxTemperatureF": np.round(rng.uniform(30, 110, n), 1),
         "Date_logged": pd.date_range("2031-01-01", periods=n, freq="D"),
         "date": np.array(["n/a"] * n, dtype=object),
+        # names a model might well use for columns of its own
+        "season": np.array(["kharif" if (i // 180) % 2 else "rabi" for i in range(n)], dtype=object),
+        "gdd": np.round(rng.uniform(0, 30, n), 1),
+        "index": np.arange(n, dtype=float)[::-1].copy(),
     }
     # unrelated columns may well be incomplete: missing values on days inside the window
     holes = rng.choice(n, size=min(n, 6), replace=False)
@@ -74,6 +80,7 @@ def add_columns(df, rng, where):
     lg.iloc[holes[3:]] = pd.NaT
     extras["Logged"] = lg.to_numpy()
     names = list(rng.choice(list(extras), size=int(rng.integers(1, 5)), replace=False))
+    names += [x for x in force if x not in names]
     cols = list(df.columns)
     for k, name in enumerate(names):
         pos = {"before": 0, "after": len(cols), "between": int(rng.integers(1, len(cols)))}[where]
@@ -152,11 +159,12 @@ def run_case(case):
     d0 = sim.tables_digest(B)
     # ---- (2) transformations -----------------------------------------------------------------
     plans = []
+    forced = ("season", "gdd") if spec["crop"].get("kw", {}).get("SwitchGDD") else ()
     perms = PERMS if case.get("all_perms") else [PERMS[int(i)] for i in rng.choice(len(PERMS), 12, replace=False)]
     for p in perms:
         plans.append(("permutation", f"columns ordered {list(p)}", lambda df, p=p: df[list(p)]))
     for where in ("before", "between", "after"):
-        plans.append(("extra_columns", f"unrelated columns {where}", lambda df, where=where: add_columns(df, rng, where)))
+        plans.append(("extra_columns", f"unrelated columns {where}", lambda df, where=where: add_columns(df, rng, where, force=forced)))
     for kind in ("reversed", "strings", "datetime", "nonunique", "offset", "unpadded", "shuffled"):
         plans.append(("index", f"index replaced ({kind})", lambda df, kind=kind: reindex(df, rng, kind)))
     plans.append(("extra_rows", "extra leading and trailing rows", lambda df: extra_rows(df, rng)))
